@@ -42,6 +42,58 @@ def run_model(lines, jobs=12):
     return res
 
 
+# ---- the oracle laws the conformance theorems assume (Proofs/SimDefs.lean: IdnaLaws), checked on every answer of x/net --------
+LAW_CHECKED = [0]
+LAW_VIOLATIONS = []
+
+
+def _ascii_or_misc_no_puny(runes):
+    """containsOnlyASCIIOrMiscAndNoPunycode of url/hostparser.go (= asciiOrMiscNoPuny of Impl/Host.lean)"""
+    p = 0
+    for r in runes:
+        if ord(r) < 0x80:
+            r = r.lower()
+        if ord(r) >= 0x80 and r not in "\u2260\u226e\u226f":
+            return False
+        if r == ".":
+            p = 0
+        elif p == 0 and r == "x":
+            p = 1
+        elif p == 1 and r == "n":
+            p = 2
+        elif p == 2 and r == "-":
+            p = 3
+        elif p == 3 and r == "-":
+            return False
+        else:
+            p = -1
+    return True
+
+
+def check_idna_laws(line):
+    """line: x<src>=x<out>=<0|1>"""
+    try:
+        src, out, flag = line.split("=")
+        sb, ob, err = bytes.fromhex(src[1:]), bytes.fromhex(out[1:]), flag == "1"
+    except Exception:
+        return
+    LAW_CHECKED[0] += 1
+    runes = sb.decode("utf-8", errors="replace")
+    bad = []
+    if any(b >= 0x80 for b in ob):
+        bad.append("L2 out_ascii")
+    if "\ufffd" in runes and not err:
+        bad.append("L3 repl_fails")
+    aom = _ascii_or_misc_no_puny(runes)
+    if sb and err and aom and not ob:
+        bad.append("L4 nonempty")
+    if all(b < 0x80 for b in sb) and aom and ob != sb.lower():
+        bad.append("L1 ascii_lower")
+    for b in bad:
+        if len(LAW_VIOLATIONS) < 20:
+            LAW_VIOLATIONS.append({"law": b, "answer": line, "input": runes, "output": ob.decode("latin-1"), "error": err})
+
+
 def idna_answers(keys):
     ans = {}
     keys = list(keys)
@@ -50,6 +102,7 @@ def idna_answers(keys):
         for l in p.stdout.decode().split("\n"):
             if l:
                 ans[l.split("=")[0]] = l
+                check_idna_laws(l)
     return ans
 
 
